@@ -82,7 +82,7 @@ SITE_WHEN = {0: True, 1: True, 2: True, 3: True, 4: True, 5: False, 6: True, 7: 
 
 def translate(h, lifetimes):
     """symbolic ops -> model ops; returns (model lifetimes string, symtab, expected value of each synthetic fake)"""
-    lifetimes = [[o for o in ops if o != "MAPOVER"] for ops in lifetimes]
+    lifetimes = [[o for o in ops if o not in ("MAPOVER", "UNWIND", "THREAD")] for ops in lifetimes]
     addr = dict(h["addr"])
     synth_val = {}
     out = []
